@@ -260,6 +260,91 @@ pub fn sparse_records(h: &Hdr, zone: Zone) -> Vec<(String, Rec)> {
     out
 }
 
+/// Element counts at the typed-descriptor boundary (a length ≥ 15 is followed by a typed integer).
+pub const COUNTS: [usize; 5] = [14, 15, 16, 255, 256];
+
+pub fn counts_header(ff: (u32, u32)) -> Hdr {
+    let mut h = Hdr::new(ff);
+    for (id, num, ty) in [
+        ("XIU", Num::Unknown, Ty::Integer),
+        ("XFU", Num::Unknown, Ty::Float),
+        ("XSU", Num::Unknown, Ty::String),
+        ("XCU", Num::Unknown, Ty::Character),
+        ("XS1", Num::Count(1), Ty::String),
+        ("XF", Num::Count(0), Ty::Flag),
+    ] {
+        h.infos.push(FieldDef::new(id, num, ty));
+    }
+    for i in 0..260 {
+        h.filters.push(FilterDef { id: format!("f{i:03}"), desc: format!("filter {i}"), idx: None, other: vec![] });
+    }
+    for (id, num, ty) in [
+        ("GT", Num::Count(1), Ty::String),
+        ("YIU", Num::Unknown, Ty::Integer),
+        ("YFU", Num::Unknown, Ty::Float),
+        ("YSU", Num::Unknown, Ty::String),
+        ("YS1", Num::Count(1), Ty::String),
+    ] {
+        h.formats.push(FieldDef::new(id, num, ty));
+    }
+    h.contigs.push(ContigDef { id: "c000".into(), length: Some(100000), ..Default::default() });
+    h.samples = vec!["s0".into(), "s1".into()];
+    h
+}
+
+pub fn counts_records(h: &Hdr) -> Vec<(String, Rec)> {
+    let mut out: Vec<(String, Rec)> = Vec::new();
+    let text = |n: usize| "abcdefghijklmnopqrstuvwxyz".chars().cycle().take(n).collect::<String>();
+    for n in COUNTS {
+        let mut r = base(h);
+        r.filters = (0..n).map(|i| format!("f{i:03}")).collect();
+        r.info = vec![("XF".into(), Some(Val::Flag)), ("XS1".into(), Some(Val::s("after-the-filters")))];
+        out.push((format!("filters-x{n}"), r));
+        let mut r = base(h);
+        r.filters = (0..n).rev().map(|i| format!("f{i:03}")).collect();
+        out.push((format!("filters-descending-x{n}"), r));
+        let mut r = base(h);
+        r.info = vec![
+            ("XIU".into(), Some(Val::IntA((0..n as i32).map(Some).collect()))),
+            ("XFU".into(), Some(Val::FloatA((0..n).map(|i| Some((i as f32 * 0.5).to_bits())).collect()))),
+            ("XF".into(), Some(Val::Flag)),
+        ];
+        out.push((format!("info-int+float-vectors-x{n}"), r));
+        let mut r = base(h);
+        r.info = vec![("XIU".into(), Some(Val::IntA((0..n as i32).map(|i| Some(i * 300)).collect()))), ("XF".into(), Some(Val::Flag))];
+        out.push((format!("info-int16-vector-x{n}"), r));
+        let mut r = base(h);
+        r.info = vec![
+            ("XSU".into(), Some(Val::StrA((0..n).map(|i| Some(format!("e{}", i % 10))).collect()))),
+            ("XCU".into(), Some(Val::CharA((0..n).map(|i| Some((b'a' + (i % 26) as u8) as char)).collect()))),
+            ("XS1".into(), Some(Val::Str(text(n)))),
+        ];
+        out.push((format!("info-string-vectors-and-string-x{n}"), r));
+        let mut r = base(h);
+        r.format.extend(["YIU".to_string(), "YFU".to_string(), "YSU".to_string(), "YS1".to_string()]);
+        r.samples[0].extend([
+            Some(Val::IntA((0..n as i32).map(Some).collect())),
+            Some(Val::FloatA((0..n).map(|i| Some((i as f32).to_bits())).collect())),
+            Some(Val::StrA((0..n).map(|i| Some(format!("e{}", i % 10))).collect())),
+            Some(Val::Str(text(n))),
+        ]);
+        r.samples[1].extend([Some(Val::IntA(vec![Some(7)])), Some(Val::FloatA(vec![Some(1f32.to_bits())])), Some(Val::sa(&[Some("w")])), Some(Val::s("z"))]);
+        out.push((format!("format-vectors-and-string-x{n}"), r));
+        let mut r = base(h);
+        r.ids = vec![text(n)];
+        r.alts = vec![text(n).to_uppercase().replace(|c: char| !"ACGT".contains(c), "A")];
+        r.refb = "ACGT".repeat(n / 4 + 1)[..n].to_string();
+        out.push((format!("id-ref-alt-of-{n}-bytes"), r));
+        if n <= 16 {
+            let mut r = base(h);
+            r.ids = (0..n).map(|i| format!("i{i}")).collect();
+            r.alts = (0..n).map(|i| ["A", "C", "G", "T"][i % 4].repeat(i / 4 + 1)).collect();
+            out.push((format!("ids-and-alts-x{n}"), r));
+        }
+    }
+    out
+}
+
 pub struct BigCase {
     pub name: String,
     pub hdr: Hdr,
@@ -285,6 +370,11 @@ pub fn cases(ffs: &[(u32, u32)]) -> Vec<BigCase> {
             let recs = sparse_records(&hdr, zone);
             out.push(BigCase { name: format!("ff={}.{} sparse-IDX{:?} zone={zone:?}", ff.0, ff.1, SPARSE_IDX), hdr, recs });
         }
+    }
+    for &ff in ffs {
+        let hdr = counts_header(ff);
+        let recs = counts_records(&hdr);
+        out.push(BigCase { name: format!("ff={}.{} counts-at-descriptor-boundary{:?}", ff.0, ff.1, COUNTS), hdr, recs });
     }
     out
 }
